@@ -246,7 +246,7 @@ def check(ctx):
                 ok = not filt and tests and cp.a.get("consumer") == "any"
                 collects = [x for x in frame if x.kind == "ACCUM" and x.a["acc"] in tested_accs and x.a["how"] in ("init", "update")
                             and isinstance(x.a["src"], tuple) and x.a["src"][:1] == ("comp",) and x.file == cp.file and x.line == cp.line]
-                if collects and cp.a.get("consumer") in (".update", "set", "frozenset"):
+                if collects and cp.a.get("consumer") in (".update", "set", "frozenset", "list"):
                     # the generator fills the collection the candidate is tested against: every entry's identifier, unfiltered
                     ok = not filt and isinstance(elt, tuple) and ((elt[:1] == ("attr",) and elt[-1] == "msgId") or elt[:1] == ("keyof",))
                 ctx.ob("ID-SCAN", "%s: the in-use scan written as any(<test> for ..) visits every entry (%s:%d)" % (short(fq), cp.file, cp.line), ok,
